@@ -118,6 +118,10 @@ type c03Case struct {
 	pres   gen.Presentation
 	seq    []seqItem
 	dgrams [][]byte
+	// loopback layer: what the farm answers to anything but the first request of the case - a retransmission, or the same request
+	// over another transport: a perfectly good reply (a correct client never gets that far: one call, one request)
+	again []byte
+	reqs  atomic.Int32
 }
 
 func c03Judge(c *Ctx, cs *c03Case, out rm.Outcome, panicked bool, elapsed, T time.Duration, layer string, caseNo int64, consumed int) {
@@ -178,7 +182,7 @@ func c03Judge(c *Ctx, cs *c03Case, out rm.Outcome, panicked bool, elapsed, T tim
 }
 
 func c03(c *Ctx) {
-	c.Res.Rule = "datagram-sequence scripts over the class alphabet {valid, len0, len1-63, len65-1024, wrong-serial, serial0, wrong-function, wrong-protocol, protocol-0x19, malformed}; every valid-looking datagram carries a unique marker in a result field; all sequences up to length L (2 quick / 3 thorough; 4 on the hooked layer) plus random sequences up to length 8, on the broadcast, connected-UDP and TCP paths; hooked layer: all 31 operations through the in-memory driver; loopback layer: real sockets against the controller farm; oracle = acceptance automaton; distinct = distinct (layer, path, operation, class sequence)"
+	c.Res.Rule = "datagram-sequence scripts over the class alphabet {valid, len0, len1-63, len65-4096, wrong-serial, serial0, wrong-function, wrong-protocol, protocol-0x19, malformed}; every valid-looking datagram carries a unique marker in a result field; all sequences up to length L (2 quick / 3 thorough; 4 on the hooked layer) plus random sequences up to length 8, on the broadcast, connected-UDP and TCP paths; hooked layer: all 31 operations through the in-memory driver; loopback layer: real sockets against the controller farm; oracle = acceptance automaton; distinct = distinct (layer, path, operation, class sequence)"
 	if c.Mode == "loopback" {
 		c03Loopback(c)
 		return
@@ -210,6 +214,9 @@ func (cs *c03Case) build(r gen.R, classes []gen.Class, base uint32) {
 		}
 		cs.seq = append(cs.seq, seqItem{cl, m})
 		cs.dgrams = append(cs.dgrams, r.Datagram(cs.op, cs.serial, cs.args, cl, m))
+	}
+	if !cs.op.NoReply {
+		cs.again = r.Datagram(cs.op, cs.serial, cs.args, gen.Valid, 0x0e&markerMask(cs.op))
 	}
 }
 
@@ -293,6 +300,18 @@ func c03Loopback(c *Ctx) {
 		return
 	}
 	defer fm.Close()
+	// a controller that can be reached over UDP and over TCP at the same address and port (for controllers configured with a
+	// protocol string that is not "tcp": they are UDP controllers, whatever else listens there)
+	var pu, pt *farm.Endpoint
+	for try := 0; try < 20 && pt == nil; try++ {
+		var e error
+		if pu, e = fm.AddUDP("127.0.0.1", 0); e != nil {
+			break
+		}
+		if pt, e = fm.AddTCP("127.0.0.1", pu.Port); e != nil {
+			pt = nil
+		}
+	}
 
 	var cases sync.Map // serial -> *c03Case
 	fm.SetScript(func(ep *farm.Endpoint, src net.Addr, req []byte, seq uint64) []farm.Action {
@@ -305,6 +324,12 @@ func c03Loopback(c *Ctx) {
 			return nil
 		}
 		cs := v.(*c03Case)
+		if cs.reqs.Add(1) > 1 {
+			if cs.again == nil {
+				return nil
+			}
+			return []farm.Action{{Data: cs.again}}
+		}
 		actions := []farm.Action{}
 		for i, d := range cs.dgrams {
 			delay := time.Millisecond
@@ -395,6 +420,10 @@ func c03Loopback(c *Ctx) {
 				switch jb.path {
 				case "udp":
 					cfg.Devices = []DevCfg{{ID: serial, Addr: cu.Addr, Proto: "udp"}}
+					if i%4 == 1 && pt != nil {
+						cfg.Devices = []DevCfg{{ID: serial, Addr: pu.Addr, Proto: []string{"any", "", "xyz", "UDP"}[(i/4)%4]}}
+						c.Res.Count("loopback:udp:controllers-with-another-protocol-string-and-a-tcp-listener-at-the-same-port", 1)
+					}
 				case "tcp":
 					cfg.Devices = []DevCfg{{ID: serial, Addr: ct.Addr, Proto: "tcp"}}
 				}
